@@ -4,6 +4,7 @@ CONSTANTS
   PairLen = 2
   ShapeLen = 2
   AllPairs = TRUE
+  PortLen = 2
 CONSTRAINT Emit
 INVARIANTS InvOnlySameOrigin InvSameOriginAdmitted InvNoUnicodeFold
 CHECK_DEADLOCK FALSE
